@@ -25,7 +25,7 @@ LEVEL_TEXT = ("Analytic polar-stereographic grids (random pole, rotation, resolu
 LEVEL_NOTE = "Position error bound = 1.5*sqrt(tol)/sigma_min(J) with tol = 1e-7 (bilin_inv's stopping rule), J = local Jacobian in degrees per cell; trusts numpy/netCDF4 and the closed-form projection in the harness."
 RULE = ("cases: sample2d chunks (random fields/masks/positions/substitutes), roundtrip (one grid x subgrid x 2000 positions), e2e (lon/lat release + lon/lat output, sparse and dense). "
         "Non-trivial: positions within one cell of the rim of the valid region are present / masked or outside points present; distinct by grid parameters.")
-MANDATORY = ["e2e_split_output_files", "post_sample2D", "roundtrip_positions", "longitudes_beyond_180", "rim_positions", "subgrid", "outside_value_zero", "outside_value_nan", "masked_corner",
+MANDATORY = ["e2e_inactive_particles", "e2e_split_output_files", "post_sample2D", "roundtrip_positions", "longitudes_beyond_180", "rim_positions", "subgrid", "outside_value_zero", "outside_value_nan", "masked_corner",
              "all_masked", "outside_raises", "e2e_lonlat_release", "e2e_lonlat_output", "exact_bilinear_field"]
 ASSUMPTIONS = ["grids are conformal and smooth (polar stereographic) as the property quantifies; the branch cut of longitude is kept outside the grid"]
 TIMEOUT = {"quick": 600, "thorough": 3000}
@@ -315,6 +315,7 @@ def _case_e2e(case, wd, V, sit, cnt, keys):
     run = dict(start=start, stop=stop, dt=dt, advection="EF", subgrid=sub,
                release=dict(columns=cols, rows=rows, header=True),
                state=dict(instance_variables=dict(lon="float", lat="float"), default_values=dict(lon=0.0, lat=0.0)),
+               ibm=dict(module=C.REC_IBM, deactivate={"1": [1, 3]}, log=False) if case["idx"] % 2 else {},
                output=dict(period=dt, layout=layout, numrec=[0, 2, 1][case["idx"] % 3], instance=dict(pid="i4", X="f8", Y="f8", Z="f8", lon="f8", lat="f8")))
     res, conf, world = run_scenario(dict(world=w, run=run), wd)
     desc = dict(grid=[imax, jmax], subgrid=sub, by_lonlat=bylonlat, layout=layout)
@@ -357,6 +358,8 @@ def _case_e2e(case, wd, V, sit, cnt, keys):
                 break
             ncmp += 1
     _bump(sit, "e2e_lonlat_output", ncmp)
+    if case["idx"] % 2:
+        _bump(sit, "e2e_inactive_particles")
     if len(res.outputs) > 1:
         _bump(sit, "e2e_split_output_files")
         for f in read_outputs(res.outputs):
